@@ -87,7 +87,7 @@ func UniquePool() []Member {
 
 func Run(r *ev.Run) {
 	thorough := r.Tier == "thorough"
-	r.Rule("(i) enum lists of length 0..2 (thorough 3) and const over a 25-value pool, built by Unmarshal and as Go literals in canonical and in two alternative exact representations, x every pool value in every G-rep representation (<=1 deviating node): pass iff R2-equal to a member; " +
+	r.Rule("(i) enum lists of length 0..2 (thorough 3, the third member over every other pool value) and const over a 25-value pool, built by Unmarshal and as Go literals in canonical and in two alternative exact representations, x every pool value in every G-rep representation (<=1 deviating node): pass iff R2-equal to a member; " +
 		"(ii) uniqueItems on every []any of length 0..3 (thorough 4; quick length 4 over a 12-element sub-pool) over a 25-element pool with equal-but-not-identical members (1 / json.Number 1.0 / 1e0 / int8(1); permuted and differently typed maps; []any / []int / [1]int; 2^63 as uint64 and float64; 256 as float64 and json.Number; nil and nil pointer): pass iff no two elements are R2-equal. Every call draws a fresh hash seed; each array is validated 3 times; (iii) uniqueItems / enum / const below applicators that do not abort the call (contains, anyOf, oneOf, not, if) x every pair and selected triples of 9 small arrays in one instance, compared with R1. Non-trivial = every case (distinct by construction)")
 	r.Assume("R2 canonical equality is the oracle; the hash-family exploration of the seed quantifier runs in the instrumented build (C12 env part)")
 	vals := gen.Vals(enumPool...)
@@ -126,6 +126,9 @@ func Run(r *ev.Run) {
 			return
 		}
 		for i := range vals {
+			if len(cur) == 2 && i%2 == 1 {
+				continue // lists of three: the third member ranges over every other pool value
+			}
 			rec(append(cur, i))
 		}
 	}
